@@ -22,11 +22,11 @@ CHECKS: dict[str, dict] = {
     ),
     "C14": dict(
         engine="spec/FindAll.tla, spec/Regex.tla, spec/RegexCases.tla, spec/MatcherTrace.tla, spec/HeaderCases.tla, spec/HeaderTrace.tla, spec/AutomatonSem.tla",
-        text="TLC checks the find_all loop as coded (FindAll.tla: parallel attempts, overlap guard, tail loop) clause by clause against the reference "
+        text="TLC checks the find_all loop as coded (FindAll.tla: one attempt at a time, leftmost first) clause by clause against the reference "
              "search semantics of Regex.tla for every non-nullable pattern up to N items x every word up to K; every (pattern, word) is replayed into the real "
              "find_all and every result that differs from the reference result is judged clause by clause by TLC (MatcherTrace.tla), as are random larger "
              "patterns; the built-in header shapes are covered by enumerating all token-class sequences over the header automata extracted from the running "
-             "code (HeaderCases.tla) with BalancedEnd, replayed with concrete tokens and judged by HeaderTrace.tla. One open finding (eviction of an enclosing attempt).",
+             "code (HeaderCases.tla) with BalancedEnd, replayed with concrete tokens and judged by HeaderTrace.tla. ",
         note="Non-nullable patterns; letters are disjoint Identity predicates; header automata and predicate tables are extracted from the live code "
              "(predicates depend on a token only through kind/value and one nesting counter). " + BASE_NOTE,
         technique="TLA+ model checked by TLC + exhaustive spec->code replay + TLC trace acceptance",
@@ -38,7 +38,7 @@ CHECKS: dict[str, dict] = {
              "predicate (token kind x distinguished value x nesting depth -1..8) are extracted from the running code; TLC explores every reachable "
              "(automaton, state, depth vector) under every token class and checks that at most one transition is enabled; every reachable configuration's "
              "witness path is replayed into a real Pattern and every token class fed to it (no ValueError, same successor and counters as the model). "
-             "One open finding (JS/TS arrow pattern, '=>' inside a parenthesis group).",
+             "",
         note="Assumes predicates depend on a token only through (kind, value) and on history only through one nesting counter, uniform beyond depth 2 "
              "(both checked while probing); expressions are those extract_headers passes to find_all/starts_with on seed programs. " + BASE_NOTE,
         technique="TLC reachability over automata extracted from the code + replay of every configuration into the real matcher",
